@@ -191,6 +191,18 @@ def cases(it, S):
     add("empty feature collection", "gene.feature:FeatureIntervalCollection.__init__", lambda: mk_feature_collection(it, []), {"InvalidAnnotationError"})
     add("empty variant collection", "gene.variants:VariantIntervalCollection.__init__", lambda: it.apply(ClassTok("VariantIntervalCollection"), [[]], {}, None, 0), {"InvalidAnnotationError"})
     add("gene with the same transcript twice", "gene.gene:GeneInterval.__init__", lambda: mk_gene(it, [t1(), t1()]), {"DuplicateTranscriptError"})
+    # children that carry the same identifier (given explicitly, as from_dict does with serialised identifiers) and differ in content
+    import uuid as _uuid
+    same = _uuid.UUID(int=0x5a5a)
+    add("gene with two different transcripts under one guid", "gene.gene:GeneInterval.__init__",
+        lambda: mk_gene(it, [mk_transcript(it, [(3, 20)], S["PLUS"], transcript_id="a", guid=same), mk_transcript(it, [(5, 30)], S["PLUS"], transcript_id="b", guid=same)]),
+        {"DuplicateTranscriptError"})
+    add("gene with two transcripts under one guid that differ in their id only", "gene.gene:GeneInterval.__init__",
+        lambda: mk_gene(it, [mk_transcript(it, [(3, 20)], S["PLUS"], transcript_id="a", guid=same), mk_transcript(it, [(3, 20)], S["PLUS"], transcript_id="b", guid=same)]),
+        {"DuplicateTranscriptError"})
+    add("feature collection with two different features under one guid", "gene.feature:FeatureIntervalCollection.__init__",
+        lambda: mk_feature_collection(it, [mk_feature(it, [(3, 20)], S["PLUS"], feature_name="a", guid=same), mk_feature(it, [(5, 30)], S["MINUS"], feature_name="b", guid=same)]),
+        {"DuplicateFeatureError"})
     add("feature collection with the same feature twice", "gene.feature:FeatureIntervalCollection.__init__", lambda: mk_feature_collection(it, [f1(), f1()]), {"DuplicateFeatureError"})
     add("variant collection with the same variant twice", "gene.variants:VariantIntervalCollection.__init__",
         lambda: it.apply(ClassTok("VariantIntervalCollection"), [[var(3, 4), var(3, 4)]], {}, None, 0), {"DuplicateFeatureError", "LocationOverlapException"})
